@@ -1,0 +1,14 @@
+//go:build verif
+
+package file_storage
+
+// SimYield, when set, is called at the steps of send/GetMessages that have no
+// other seam. The deterministic-simulation harness in /verif uses it to
+// pre-empt a writer inside the lock-count-append sequence.
+var SimYield func(fs *FileStorage, point string)
+
+func simYield(fs *FileStorage, point string) {
+	if SimYield != nil {
+		SimYield(fs, point)
+	}
+}
